@@ -25,15 +25,17 @@ Regs == { [kind |-> "plain", method |-> "-", public |-> p, rotated |-> r, nosecr
         \cup { [kind |-> "oidc", method |-> m, public |-> p, rotated |-> r, nosecret |-> FALSE] : m \in Methods, p \in BOOLEAN, r \in {0, 2} }
         \cup { [kind |-> "plain", method |-> "-", public |-> FALSE, rotated |-> 0, nosecret |-> TRUE] }
         \cup { [kind |-> "oidc", method |-> m, public |-> FALSE, rotated |-> 0, nosecret |-> TRUE] : m \in Methods }
-Transports == {"basic", "body", "both", "neither", "basic_undecodable", "basic_id_only", "body_id_only"}
+(* basic_body_other: the client's credentials in the Basic header AND the client_id of ANOTHER registered client in the
+   body: the header identifies the client, the body's client_id must not change who is authenticated *)
+Transports == {"basic", "body", "both", "neither", "basic_undecodable", "basic_id_only", "body_id_only", "basic_body_other"}
 Secrets == {"current", "rotated", "wrong", "empty", "other_client"}
 Endpoints == {"token:client_credentials", "token:password", "token:refresh_token", "revoke", "par", "device_auth"}
 
 (* does the header / the body carry a non-empty secret? *)
 SecretSent(sr) == sr # "empty"
-HeaderSecret(t, sr) == t \in {"basic", "both"} /\ SecretSent(sr)
+HeaderSecret(t, sr) == t \in {"basic", "both", "basic_body_other"} /\ SecretSent(sr)
 BodySecret(t, sr) == t \in {"body", "both"} /\ SecretSent(sr)
-HasBasic(t) == t \in {"basic", "both", "basic_undecodable", "basic_id_only"}
+HasBasic(t) == t \in {"basic", "both", "basic_undecodable", "basic_id_only", "basic_body_other"}
 (* the device authorization endpoint always carries client_id in the body (it compares it) *)
 BodyID(t, ep) == t \in {"body", "both", "body_id_only"} \/ ep = "device_auth"
 SecretOK(reg, sr) == ~reg.nosecret /\ (sr = "current" \/ (sr = "rotated" /\ reg.rotated > 0))
@@ -54,12 +56,14 @@ Outcome(reg, t, sr, known, ep) ==
   LET a == Auth(reg, t, sr, known, ep) IN
   IF a # "ok" THEN (IF ep = "par" THEN "invalid_client" ELSE a)            \* the PAR endpoint reports every failure as invalid_client
   ELSE IF ep = "token:client_credentials" /\ reg.public THEN "invalid_grant"   \* public clients never get client_credentials tokens
+  ELSE IF ep = "par" /\ t = "basic_body_other" THEN "invalid_request"          \* the pushed request's client_id is a parameter: it must name the authenticated client
   ELSE "ok"
 
 Rows == { [reg |-> reg, transport |-> t, secret |-> sr, known |-> k, endpoint |-> ep,
            auth |-> Auth(reg, t, sr, k, ep), outcome |-> Outcome(reg, t, sr, k, ep)] :
             reg \in Regs, t \in Transports, sr \in Secrets, k \in BOOLEAN, ep \in Endpoints }
 ValidRows == { r \in Rows : (r.transport \in {"neither", "basic_undecodable", "basic_id_only", "body_id_only"} => r.secret = "empty")
+                            /\ (r.transport = "basic_body_other" => r.endpoint # "device_auth")     \* that endpoint compares the body's client_id itself
                             /\ (r.secret = "rotated" => r.reg.rotated > 0) }
 
 (* relations *)
@@ -67,6 +71,9 @@ ASSUME \A r \in ValidRows : (r.auth = "ok" /\ ~r.reg.public) => r.secret \in {"c
 ASSUME \A r \in ValidRows : (r.endpoint = "token:client_credentials" /\ r.reg.public) => r.outcome # "ok"
 ASSUME \A r \in ValidRows : r.secret \in {"wrong", "other_client"} => (r.auth = "ok" => r.reg.public)
 ASSUME \A r \in ValidRows : r.reg.nosecret => r.auth # "ok"
+ASSUME \A r \in ValidRows : r.transport = "basic_body_other" =>
+          \E q \in ValidRows : q.transport = "basic" /\ q.reg = r.reg /\ q.secret = r.secret /\ q.known = r.known /\ q.endpoint = r.endpoint
+                                 /\ (q.outcome = r.outcome \/ (r.endpoint = "par" /\ q.outcome = "ok" /\ r.outcome = "invalid_request"))
 ASSUME PrintT(<<"ROWS", Cardinality(ValidRows)>>)
 ASSUME JsonSerialize(IOEnv.VERIF_TABLE_CLIENTAUTH, SetToSeq(ValidRows))
 
